@@ -15,7 +15,7 @@ import (
 	"github.com/hashicorp/serf/cmd/serf/command/agent"
 )
 
-// C31: configuration layering. Ops: `merge A B`, `assoc A B C`, `reuse BASE B C`, `read <path>…`
+// C31: configuration layering. Ops: `merge A B`, `assoc A B C`, `reuse BASE B C`, `decode CFG ORACLE u|-`, `read <path>…`
 // (formats: lean/SerfModel/Check/C31.lean). Configurations are built by reflection
 // over agent.Config, so the field list is always the one of the code under test.
 
@@ -284,6 +284,29 @@ func c31Exec(ops []string) []string {
 			outs = append(outs, c31Show(l, false)+" "+c31Show(r, false))
 		case len(f) == 4 && f[0] == "reuse":
 			outs = append(outs, c31Reuse(f[1], f[2], f[3]))
+		case len(f) == 4 && f[0] == "decode":
+			c, ok := c31Parse(f[1])
+			if !ok {
+				outs = append(outs, "bad-op")
+				continue
+			}
+			b, err := c31JSON(c)
+			if err != nil {
+				outs = append(outs, "harness-error")
+				continue
+			}
+			if f[3] == "u" {
+				b = append([]byte(`{"no_such_setting": 1,`), b[1:]...)
+				if string(b) == `{"no_such_setting": 1,}` {
+					b = []byte(`{"no_such_setting": 1}`)
+				}
+			}
+			got, err := agent.DecodeConfig(strings.NewReader(string(b)))
+			if err != nil {
+				outs = append(outs, "error")
+			} else {
+				outs = append(outs, c31Show(got, false))
+			}
 		case len(f) >= 1 && f[0] == "read":
 			outs = append(outs, c31Read(f[1:]))
 		default:
@@ -692,6 +715,113 @@ func c31Gen(rng *rand.Rand, tier string) []Case {
 		add("read2", true, fmt.Sprintf("read d:%s~j~%s|%s~j~%s", hexs("b.json"), c1, hexs("a.json"), c2))
 		add("read2", true, fmt.Sprintf("read d:%s~j~%s|%s~j~%s|%s~j~%s f:%s", hexs("10.json"), c1, hexs("2.json"), c2, hexs("z.txt"), f.name+"="+v1, c1))
 	}
+	// DecodeConfig's post-processing: raw duration strings (valid, zero, fractional, signed, overflowing,
+	// malformed), with Go's time.ParseDuration as the oracle; other JSON-settable fields around them
+	rawPal := []string{"5s", "100ms", "1h", "-2s", "1m30s", "0", "0s", "1.5h", "5x", "abc", "5", " 5s", "1h30",
+		"9223372036854775807ns", "9223372036854775808ns", "1e3s", "+3m", ".5s", "1µs", "s"}
+	var rawFields []string
+	for _, f := range c31Fields {
+		if f.kind == "str" && strings.HasSuffix(f.name, "Raw") {
+			rawFields = append(rawFields, f.name)
+		}
+	}
+	decodeOp := func(raws map[string]string, others string, unknown bool) string {
+		var parts, orc []string
+		seen := map[string]bool{}
+		for _, rf := range rawFields {
+			v, ok := raws[rf]
+			if !ok || v == "" {
+				continue
+			}
+			parts = append(parts, rf+"=s"+hexs(v))
+			if !seen[v] {
+				seen[v] = true
+				if d, err := time.ParseDuration(v); err != nil {
+					orc = append(orc, hexs(v)+":e")
+				} else {
+					orc = append(orc, hexs(v)+":"+strconv.FormatInt(int64(d), 10))
+				}
+			}
+		}
+		cfg := strings.Join(parts, ";")
+		if others != "-" && others != "" {
+			if cfg != "" {
+				cfg += ";"
+			}
+			cfg += others
+		}
+		if cfg == "" {
+			cfg = "-"
+		}
+		o := "_"
+		if len(orc) > 0 {
+			o = strings.Join(orc, ";")
+		}
+		u := "-"
+		if unknown {
+			u = "u"
+		}
+		return fmt.Sprintf("decode %s %s %s", cfg, o, u)
+	}
+	for _, rf := range rawFields {
+		for _, v := range rawPal {
+			add("decode", true, decodeOp(map[string]string{rf: v}, "-", false))
+		}
+	}
+	add("decode", false, decodeOp(nil, "-", false))
+	add("decode", true, decodeOp(nil, "-", true))
+	add("decode", true, decodeOp(map[string]string{rawFields[0]: "5s"}, "NodeName=s78", true))
+	nDec := 100
+	if tier == "thorough" {
+		nDec = 3000
+	}
+	for i := 0; i < nDec; i++ {
+		raws := map[string]string{}
+		for _, rf := range rawFields {
+			if rng.Intn(2) == 0 {
+				raws[rf] = rawPal[rng.Intn(len(rawPal))]
+			}
+		}
+		// other fields: JSON-round-tripping values, without the raw/duration twins
+		var keep []string
+		for _, it := range strings.Split(c31JSONable(rng, 2+rng.Intn(4)), ";") {
+			n := strings.SplitN(it, "=", 2)[0]
+			if it == "-" || strings.HasSuffix(n, "Raw") || c31FieldByName(n+"Raw") != nil {
+				continue
+			}
+			keep = append(keep, it)
+		}
+		add("rdecode", true, decodeOp(raws, strings.Join(keep, ";"), rng.Intn(12) == 0))
+	}
+	// a source followed by directories that contribute nothing (empty, only non-.json, only a sub-directory):
+	// they must not act as a source (seeded C31-a reset EnableCompression there)
+	for _, f := range c31Fields {
+		var v1 string
+		switch f.kind {
+		case "str":
+			if strings.HasSuffix(f.name, "Raw") {
+				continue
+			}
+			v1 = "s" + hexs("x")
+		case "int":
+			v1 = "i5"
+		case "bool":
+			v1 = "b1"
+		case "tags":
+			v1 = "t61:31"
+		case "list":
+			v1 = "l78"
+		default:
+			continue
+		}
+		c1 := f.name + "=" + v1
+		add("read2", true, fmt.Sprintf("read f:%s d:", c1))
+		if f.kind == "bool" {
+			add("read2", true, fmt.Sprintf("read f:%s d:%s~j~%s", c1, hexs("z.txt"), c1))
+			add("read2", true, fmt.Sprintf("read d:%s~j~%s d:%s~s~-", hexs("a.json"), c1, hexs("sub.json")))
+			add("read2", true, fmt.Sprintf("read d:%s~j~%s d: f:-", hexs("a.json"), c1))
+		}
+	}
 	add("read2", false, "read")
 	add("read2", false, "read d:")
 	add("read2", false, "read m")
@@ -747,7 +877,7 @@ func init() {
 	register(&Prop{
 		ID: "C31",
 		Rule: "systematic: every Config field (reflection over agent.Config) × every ordered pair of palette values (merge) and every triple over a reduced palette (assoc), other fields zero; " +
-			"the same base configuration merged twice (`reuse`: base lists rebuilt with cap > len, earlier result and the inputs' backing arrays re-read after the later merge); random sparse/dense pairs and triples over all fields (negative numbers, nil/empty maps and lists, empty keys); ReadConfigPaths on real temp directories (files, directories with .json / non-.json / undecodable / sub-directory entries, missing paths) " +
+			"the same base configuration merged twice (`reuse`: base lists rebuilt with cap > len, earlier result and the inputs' backing arrays re-read after the later merge); random sparse/dense pairs and triples over all fields (negative numbers, nil/empty maps and lists, empty keys); DecodeConfig on JSON renderings with every *Raw field × a palette of duration strings (valid, zero, fractional, signed, overflowing, malformed; time.ParseDuration as oracle) and unknown keys; ReadConfigPaths on real temp directories (files, directories with .json / non-.json / undecodable / sub-directory entries, missing paths) " +
 			"restricted to JSON-round-tripping values; non-trivial = both later operands non-zero (pair/triple), ≥2 selected sources (read); distinct = distinct op line",
 		Gen:  c31Gen,
 		Exec: c31Exec,
